@@ -58,7 +58,7 @@ Definition ex_run12 (a1 a2 a3 a4 : list msg -> list msg) : outcome :=
         (fun _ _ => true) (fun _ => [MOther 16 4]) (fun _ _ => true) (fun _ _ => true)
         (fun _ => [MOther 4 5]) (fun _ => 9) (fun _ => 9) a1 a2 a3 a4.
 
-(* abbreviated handshake on the same pair: the resumed ServerHello carries whatever random it has *)
+(* abbreviated handshake on the same pair: the resumed ServerHello gets the sentinel too (since /repo 9a5e0f9) *)
 Definition ex_ch12r : chello :=
   mkCH 771 101 300 [49199; 156; 255] [0] [(23, []); (10, [29; 23])] [].
 Definition ex_run12r (a1 a2 a3 : list msg -> list msg) : outcome :=
